@@ -30,12 +30,12 @@ def run(ctx):
         "samples": res.samples or [{"note": "none"}],
         "programs": int(st.get("programs", 0)),
         "checked": ["rbx rbp r12-r15 preserved", "rsp restored", "8 canary words above the return address intact", "MXCSR control bits "
-                    "(rounding, FTZ, DAZ, masks) equal to the seed", "DF clear", "x87/MMX tag word empty", "no fault outside executor/arrays"],
+                    "(rounding, FTZ, DAZ, masks) equal to the seed", "DF clear", "x87/MMX tag word empty", "no fault outside executor/arrays", "every byte of the array mappings outside elements 0..n-1 of the destination rows as filled (sources, leading/trailing bytes, row gaps), with the executor's scratch counters holding stale values on entry"],
         "exhaustive": not res.incomplete,
         "notes": res.notes[:5],
     }
     assumptions = ["MXCSR status (sticky exception) bits are not callee-preserved and are ignored", "exception masks stay set (unmasked "
-                   "exceptions would trap in ordinary float code)", "writes to sources/outside destinations are C01/C03's subject"]
+                   "exceptions would trap in ordinary float code)", "memory other than the array mappings, the executor and the stack is observed only through faults (guard pages) and the caller-frame canary"]
     return "exploration", cov, assumptions, res.viol
 
 
